@@ -230,6 +230,13 @@ impl Scenario for Twin {
                     return Step::EndForeign("panic".into());
                 }
                 let total = op.fault == "total";
+                if let Out::Rows(r) = &outs[0] {
+                    // result *sequence* goes into the event log: it depends on HashMap iteration order
+                    // inside the engine, so the determinism selftest also covers the hash-seed seam
+                    for row in r {
+                        cx.log.str(&crate::sut::canon_row(row));
+                    }
+                }
                 cx.eval(oracle_probe);
                 if let Some(shape) = &op.name {
                     cx.rep.count(&format!("probe.{}", shape));
@@ -308,11 +315,10 @@ impl Scenario for Twin {
                     if pre0 != table_snap(&self.suts[0], op.table.as_deref().unwrap_or("")) {
                         return Step::EndForeign("c11_partial_failure".into());
                     }
-                    if self.mode == Mode::Indexes {
-                        // a UNIQUE index may legitimately reject what the index-free twin accepts:
-                        // keep the twins in the same state by not applying the statement there
-                        return Step::Continue;
-                    }
+                    // Indexes: a UNIQUE index may legitimately reject what the index-free twin accepts.
+                    // Restart/Dump: constraints are not among the things C18/C19 promise to survive.
+                    // Keep the twins in the same state by not applying the statement to the others.
+                    return Step::Continue;
                 }
                 for i in 1..self.suts.len() {
                     let pre = table_snap(&self.suts[i], op.table.as_deref().unwrap_or(""));
@@ -325,9 +331,10 @@ impl Scenario for Twin {
                     }
                     cx.eval(oracle_accept);
                     if o.is_ok() != out0.is_ok() {
-                        if self.mode == Mode::Dump {
-                            // constraints are not promised by C19: a reloaded table may accept more
-                            return Step::EndForeign("dump_twin_constraints_differ".into());
+                        if self.mode != Mode::Indexes {
+                            // the reloaded twin refuses what the reference accepts: not a promise of
+                            // C18/C19 (e.g. a constraint restored more strictly); states would diverge
+                            return Step::EndForeign("reloaded_twin_refused_statement".into());
                         }
                         return cx.violation(oracle_accept, format!("{} : twin 0 {} but twin {} {}", op.sql, out0.brief(), i, o.brief()));
                     }
